@@ -244,7 +244,44 @@ def canon(cx, n, at, depth=0):
         r = cx.reaching(nd["d"], at)
         if r is not None and (fn.type(n) or "") != SEXP_T:
             return canon(cx, r[1], r[2], depth + 1)
+    if k == "mem" and nd.get("o") == "length":
+        o2, path = fn.mempath(n)
+        if len(path) == 3 and path[0] == "value" and path[1] in ("string", "bytes", "vector"):
+            lf = alloc_len(cx, o2, path[1], at)
+            if lf is not None:
+                return lf
     return (0, {fn.txt(n): 1})
+
+
+def alloc_len(cx, obj, kind, at):
+    """length of a local object known from how it was made: the boxed length argument of the allocation
+    wrapper that defines it, or the value stored into its length field earlier in this function"""
+    fn = cx.fn
+    o = fn.strip(obj)
+    on = fn.nodes[o]
+    if not (on["k"] == "ref" and "d" in on and on["d"] not in fn.params):
+        return None
+    r = cx.reaching(on["d"], at)
+    if r is None:
+        return None
+    rhs = fn.strip(r[1])
+    rn = fn.nodes[rhs]
+    if rn["k"] == "call" and rn.get("o") in ALLOC_LEN and ALLOC_LEN[rn["o"]][1] == kind:
+        k = ALLOC_LEN[rn["o"]][0]
+        if k + 1 < len(rn["c"]):
+            return canon_boxed(cx, rn["c"][k + 1], r[2], 0, "f")
+    # a raw allocation followed by the store of the length field
+    want = fn.txt(o) + LEN_FIELD[kind]
+    stores = []
+    for i, nd in enumerate(fn.nodes):
+        if nd["k"] == "bin" and nd["o"] == "=" and fn.txt(fn.strip(nd["c"][0])) == want:
+            stores.append(i)
+    if len(stores) == 1:
+        ps = enclosing_elem(fn, stores[0], cx.pos)
+        if ps is not None and (ps[0] in cx.dom.get(at[0], ()) or (ps[0] == at[0] and ps[1] < at[1])) \
+                and not cx.may_redefine(on["d"], ps, at):
+            return canon(cx, fn.nodes[stores[0]]["c"][1], ps)
+    return None
 
 
 REL_NEG = {"<": ">=", "<=": ">", ">": "<=", ">=": "<"}
@@ -433,6 +470,9 @@ def guard_facts(cx, site_pos):
                 # long compared with unsigned long is compared as unsigned long
                 uns = "unsigned long" in ((fn.type(l) or ""), (fn.type(rr) or ""))
                 r = [(add(R, L, -1), o == "<", uns)]
+                if uns and R[0] >= 0 and all(c > 0 and t.endswith(".length") for t, c in R[1].items()):
+                    # compared as unsigned against a length: the smaller side is not negative
+                    r.append((L, False, False))
                 if both:
                     r.append((add(both[1], both[0], -1), o == "<", False))
             cx.lin[key] = r
@@ -682,6 +722,8 @@ def pointer_use(fn, i):
         l = fn.strip(pn["c"][0])
         if fn.nodes[l]["k"] == "ref":
             vid = fn.nodes[l].get("d")
+    if pn["k"] == "call" and pn.get("o") in EXTENT_CALLS:
+        return "extent"       # only formed here; how far the callee goes from it is C01.k's obligation
     if pn["k"] == "un" and pn["o"] == "*" and is_store_target(fn, p):
         return "write"
     if pn["k"] == "call" and pn.get("o") in ("memcpy", "memmove", "memset", "strcpy", "strncpy", "__builtin_memcpy",
@@ -715,7 +757,8 @@ def pointer_use(fn, i):
 
 
 class Site:
-    __slots__ = ("fn", "node", "kind", "obj", "objtxt", "ix", "I", "write", "via", "at", "lower", "upper", "ok", "ixtxt")
+    __slots__ = ("fn", "node", "kind", "obj", "objtxt", "ix", "I", "write", "via", "at", "lower", "upper", "ok", "ixtxt",
+                 "formed")
 
 
 def evaluate(cx, site):
@@ -732,7 +775,7 @@ def evaluate(cx, site):
         lower = call_result_nonneg(cx, site)
     # string bytes are NUL-terminated (sexp_make_bytes_op allocates length+1): reading data[length] stays inside
     # the object; writes and the other containers need index < length
-    need = 0 if (site.kind == "string" and not site.write) else -1
+    need = 0 if ((site.kind == "string" and not site.write) or getattr(site, "formed", False)) else -1
     site.lower, site.upper = lower, upper
     site.ok = lower and upper is not None and upper <= need
     return site.ok
@@ -850,6 +893,7 @@ def direct_sites(cx):
     for i, nd in enumerate(fn.nodes):
         base = ix = None
         ptr = False
+        formed = False
         if nd["k"] == "idx":
             base, ix = nd["c"][0], nd["c"][1]
         elif nd["k"] == "bin" and nd["o"] == "+" and (fn.type(i) or "").endswith("*"):
@@ -890,6 +934,7 @@ def direct_sites(cx):
             if use == "compare":
                 continue
             write = use == "write"
+            formed = use == "extent"
         else:
             write = is_store_target(fn, i)
         I = canon(cx, ix, at)
@@ -902,6 +947,7 @@ def direct_sites(cx):
         st.fn, st.node, st.kind, st.obj, st.objtxt, st.ix, st.I, st.write, st.via, st.at = \
             fn, i, kind, obj, fn.txt(obj), ix, I, write, None, at
         st.ixtxt = fn.txt(ix)
+        st.formed = formed
         out.append(st)
     return out
 
@@ -995,6 +1041,7 @@ def run(prog, res, floor=20, prop="C01", rule="C01.i", advisory_filter=None, pri
                     I = canon_boxed(cx, args[pi], at, 0, ukind)
                     st.I = (I[0] + c0, I[1])
                     st.write, st.via, st.at = write, callee.name, at
+                    st.formed = False
                     st.ixtxt = fn.txt(args[pi])
                     pending.append(st)
     for st in reported:
@@ -1236,6 +1283,7 @@ def witnesses(prog, res):
              if name.startswith("witness_bad_") or name.startswith("witness_ok_")]
     run(wp, tmp, floor=0, prims=prims)
     run_views(wp, tmp, floor=0, prims=prims)
+    run_extents(wp, tmp, floor=0, prims=prims)
     flagged = {f.function for f in tmp.findings + tmp.advisories}
     n = 0
     for name in sorted(wp.units[0].functions):
@@ -1245,5 +1293,167 @@ def witnesses(prog, res):
         elif name.startswith("witness_ok_"):
             n += 1
             res.witness.append((name, name not in flagged))
-    if n < 14:
+    if n < 16:
         res.broken.append("C01.i witness file yielded only %d functions" % n)
+
+
+# ---------------------------------------------------------------------------------------------
+# C01.k - extents: a (pointer into an operand's data, byte count) pair handed to a copying /
+# writing routine stays inside the object when the count or the offset is program-supplied.
+
+def prove_nonneg(facts, D):
+    """D >= 0 follows from one fact or the sum of two"""
+    if not D[1]:
+        return D[0] >= 0
+    if D[0] >= 0 and all(c > 0 and t.endswith(".length") for t, c in D[1].items()):
+        return True          # length fields are unsigned
+    rel = set(D[1])
+    fs = [f for f in facts if set(f[0][1]) & rel]
+    combos = list(fs)
+    for a in fs:
+        for b in facts:
+            if b is not a and set(b[0][1]) & set(a[0][1]):
+                combos.append((add(a[0], b[0]), a[1] or b[1], False))
+    for (E, strict, _u) in combos:
+        d = add(D, E, -1)
+        if not d[1] and d[0] >= (-1 if strict else 0):
+            return True
+    return False
+
+
+EXTENT_CALLS = {
+    # name: (pointer argument positions, count expression builder)
+    "memcpy": ((0, 1), (2,)), "__builtin_memcpy": ((0, 1), (2,)), "memmove": ((0, 1), (2,)),
+    "__builtin_memmove": ((0, 1), (2,)), "memset": ((0,), (2,)), "__builtin_memset": ((0,), (2,)),
+    "memcmp": ((0, 1), (2,)), "strncmp": ((0, 1), (2,)), "strncpy": ((0, 1), (2,)),
+    "fwrite": ((0,), (1, 2)), "fread": ((0,), (1, 2)), "write": ((1,), (2,)), "read": ((1,), (2,)),
+}
+
+ALLOC_LEN = {   # allocation wrappers whose result has the given boxed argument as its length field
+    "sexp_make_string_op": (3, "string"), "sexp_make_bytes_op": (3, "bytes"), "sexp_make_vector_op": (3, "vector"),
+}
+
+
+def len_form(cx, obj, kind, at):
+    """linear form of the length of object expression `obj`"""
+    fn = cx.fn
+    lf = alloc_len(cx, obj, kind, at)
+    if lf is not None:
+        return lf
+    return (0, {fn.txt(fn.strip(obj)) + LEN_FIELD[kind]: 1})
+
+
+def pointer_parts(cx, p, at, depth=0):
+    """p = data(X) [+ off]  ->  (kind, X node, off form)  (following one local pointer definition)"""
+    fn = cx.fn
+    q = fn.strip(p)
+    qn = fn.nodes[q]
+    db = data_base(fn, p)
+    if db is not None and db[0] == "string":
+        return ("string", db[1], (0, {}))
+    if db is not None and db[0] == "flex":
+        ety = (fn.type(p) or fn.type(q) or "")
+        ety = ety[:-1].strip() if ety.endswith("*") else ety
+        kind = "vector" if ety == SEXP_T else "bytes"
+        return (kind, db[1], (0, {}))
+    if qn["k"] == "bin" and qn["o"] == "+":
+        a, b = qn["c"]
+        base, off = (a, b) if (fn.type(a) or "").endswith("*") else (b, a)
+        inner = pointer_parts(cx, base, at, depth + 1)
+        if inner is not None:
+            return (inner[0], inner[1], add(inner[2], canon(cx, off, at)))
+    if qn["k"] == "ref" and "d" in qn and qn["d"] not in fn.params and depth < 2 and (fn.type(q) or "").endswith("*"):
+        r = cx.reaching(qn["d"], at)
+        if r is not None:
+            return pointer_parts(cx, r[1], r[2], depth + 1)
+    return None
+
+
+def run_extents(prog, res, floor=3, prop="C01", rule="C01.k", advisory_filter=None, prims=None):
+    stat = res.stat(rule, "(pointer into an operand's data, count) pairs given to memcpy / memset / fwrite / strncmp ...: "
+                    "0 <= offset, 0 <= count and offset + count <= length of that object are implied by the comparisons "
+                    "that hold on every path, when offset or count is program-supplied", floor=floor)
+    prim_of = {(f.file, f.name): (s, o) for (f, s, o) in (prims or [])}
+    for fn in prog.all_funcs():
+        if not fn.blocks:
+            continue
+        # entry points only: inside a helper the bounds of its parameters are its callers' business (C01.i moves
+        # the index obligations there; extents are not summarised)
+        if (fn.file, fn.name) not in prim_of and fn.name != "sexp_apply":
+            continue
+        cx = None
+        tl = None
+        for i, nd in enumerate(fn.nodes):
+            if nd["k"] != "call" or nd.get("o") not in EXTENT_CALLS:
+                continue
+            ptrs, cnt = EXTENT_CALLS[nd["o"]]
+            args = nd["c"][1:]
+            if max(ptrs + cnt) >= len(args):
+                continue
+            if cx is None:
+                cx = Ctx(fn)
+                cx.prog = prog
+            at = enclosing_elem(fn, i, cx.pos)
+            if at is None or at[0] not in cx.reach:
+                continue
+            N = canon(cx, args[cnt[0]], at)
+            if len(cnt) == 2:
+                a, b = N, canon(cx, args[cnt[1]], at)
+                if not a[1]:
+                    N = (a[0] * b[0], {t: c * a[0] for t, c in b[1].items()})
+                elif not b[1]:
+                    N = (a[0] * b[0], {t: c * b[0] for t, c in a[1].items()})
+                else:
+                    continue
+            for pi in ptrs:
+                pp = pointer_parts(cx, args[pi], at)
+                if pp is None:
+                    continue
+                kind, obj, off = pp
+                root = fn.strip(obj)
+                while fn.nodes[root]["k"] in ("mem", "idx", "un") and fn.nodes[root].get("c"):
+                    root = fn.strip(fn.nodes[root]["c"][0])
+                rn = fn.nodes[root]
+                if rn["k"] != "ref":
+                    continue
+                L = len_form(cx, obj, kind, at)
+                elem = 8 if kind == "vector" else 1
+                if elem != 1:
+                    L = (L[0] * elem, {t: c * elem for t, c in L[1].items()})
+                S = add(off, N)
+                prog_supplied = any(t[:3] in ("Uf(", "Uc(") for t in S[1])
+                if not prog_supplied:
+                    if tl is None:
+                        tl = tainted_locals(cx)
+                    for a in (args[cnt[0]], args[pi]):
+                        if any(not (fn.var_type(v) or "").endswith("*") for v in direct_refs(fn, a) & tl):
+                            prog_supplied = True
+                if not prog_supplied:
+                    continue
+                stat.sites += 1
+                stat.obligations += 1
+                facts = guard_facts(cx, at)
+                missing = []
+                if not (prove_nonneg(facts, off) or (not off[1] and off[0] >= 0)):
+                    missing.append("0 <= offset")
+                if not prove_nonneg(facts, N):
+                    missing.append("0 <= count")
+                if not prove_nonneg(facts, add(L, S, -1)):
+                    missing.append("offset + count <= length")
+                disc = "%s(%s data of %s, count %s)" % (nd["o"], kind, fn.txt(fn.strip(obj))[:40], fn.txt(args[cnt[-1]])[:40])
+                if not missing:
+                    stat.discharged += 1
+                    stat.sample({"site": fn.where(i), "function": fn.name, "access": disc})
+                    continue
+                key = (fn.file, fn.name)
+                adv = False
+                if advisory_filter is not None and fn.name != "sexp_apply":
+                    if key in prim_of:
+                        adv = bool(advisory_filter(fn, prim_of[key][0], prim_of[key][1]))
+                    else:
+                        adv = fn.unit.name not in CORE_UNITS
+                res.add(Finding(prop, rule + ".unbounded-extent", fn.name, disc, fn.where(i),
+                                "%s: %s touches %s bytes at offset %s of the %s data of %s (length %s); not established on "
+                                "every path: %s" % (fn.name, nd["o"], N, off, kind, fn.txt(fn.strip(obj))[:50], L, "; ".join(missing)),
+                                unit=fn.unit.display, advisory=adv))
+    return stat
